@@ -81,6 +81,18 @@ MUTATIONS = [
     ("C05", "extract-block-start-at-half-size", FIX + [(MSG, "            size = 2 ** (size_exp + 4)\n            start = number * size\n", "            size = 2 ** (size_exp + 4)\n            start = number << (size_exp + 3)\n")]),
 ]
 
+# changes found by a white-box adversary (notes/adversary/C05_miss*.md); silent when found, caught since the ETag
+# status of both representations is chosen independently, wrong block numbers have a direction (b1numlo, b2numlo,
+# b2prev) and clause C05_SameRequest looks at method and options of every request
+A = "notes/adversary/"
+MUTATIONS += [
+    ("C05", "adv-etag-compared-only-when-both-present", FIX + [("@patch", A + "C05_miss1.diff", 3)]),
+    ("C05", "adv-block2-number-too-low-appended", FIX + [("@patch", A + "C05_miss2.diff", 3)]),
+    ("C05", "adv-block1-ack-number-too-low-accepted", FIX + [("@patch", A + "C05_miss2b.diff", 3)]),
+    ("C05", "adv-block2-followups-sent-as-get", FIX + [("@patch", A + "C05_miss3.diff", 3)]),
+    ("C05", "adv-block2-followups-drop-query", FIX + [("@patch", A + "C05_miss3b.diff", 3)]),
+]
+
 CONTROLS = [
     ("C05", "proposed-fix-only", FIX + [(PR, "        # FIXME this can probably be deduplicated against BlockwiseRequest\n", "        # (this can probably be deduplicated against BlockwiseRequest)\n")]),
     # a payload of exactly one block is sent with Block1 (0, last, szx) instead of unfragmented: different on the
